@@ -397,7 +397,8 @@ def _single_null_row():
 
 def corpus():
     return [
-        # the known hazard: a scheme-less first column name starting with '#' is read back as a pragma
+        # repaired defect (regress seed C02-uncarriable-names): a scheme-less first column name starting with '#' was
+        # written and read back as a pragma; the writer now refuses it with ValueError (nothing to round-trip)
         {"stream": "corpus", "hlines": [], "mode": "Silent", "layout": None, "names": ["#x", "y"], "rows": [["1", "2"]]},
         # a data field starting with '#' is harmless
         {"stream": "corpus", "hlines": ["#k v"], "mode": "Silent", "layout": None, "names": ["x", "y"],
@@ -430,7 +431,7 @@ def corpus():
          "rows": _typed_rows()[:2], "stale": [[0, 0, "KRAS", "value"], [1, 5, "3", "replace"], [1, 13, "rs1;rs2", "value"]]},
         {"stream": "corpus", "hlines": [], "mode": "Silent", "layout": None, "names": ["a", "b"],
          "rows": [["new", ""], ["x", "y"]], "stale": [[0, 0, "old", "value"], [1, 1, "", "replace"]]},
-        # known finding: scheme-less column names containing a separator cannot be carried by the column line
+        # repaired defect (same seed): scheme-less column names containing a separator; refused by the writer now
         {"stream": "corpus", "hlines": [], "mode": "Silent", "layout": None, "names": ["a\tb", "c"], "rows": [["1", "2"]]},
         # known finding: a one-element list holding the null member renders '' and comes back as the empty list
         {"stream": "corpus", "hlines": ["#version gdc-1.0.0", "#annotation.spec gdc-1.0.0-protected"], "mode": "Strict",
